@@ -4,9 +4,11 @@ open GlueVerif.C02
 #print axioms disambiguate_total_fresh
 #print axioms string_prefix_safe
 #print axioms old_label_reads_as_literal
-#print axioms roundtrip_framework_partial
-#print axioms roundtrip_framework_cycles_partial
-#print axioms roundtrip_framework_callbacks_partial
+#print axioms roundtrip_framework
+#print axioms roundtrip_framework_cycles
+#print axioms roundtrip_framework_callbacks
+#print axioms classes_field_faithful
+#print axioms roundtrip_classes
 #print axioms declared_ids_denote_declared_names
 #print axioms dispatch_matches_observed
 #print axioms table_offenders_nil
